@@ -6,6 +6,7 @@ import (
 	"fmt"
 	"math"
 	"math/big"
+	"strconv"
 	"strings"
 	"testing"
 
@@ -13,6 +14,7 @@ import (
 	"pgregory.net/rapid"
 	"verif/harness/core"
 	"verif/harness/gen"
+	"verif/harness/pyref"
 	"verif/harness/ref"
 )
 
@@ -379,5 +381,30 @@ func sign(neg bool) int {
 	return 1
 }
 
-func TestC17(t *testing.T)       { core.Run(t, "C17", genCase, check) }
-func TestC17Replay(t *testing.T) { core.Replay(t, "C17", check) }
+func TestC17(t *testing.T)       { core.Run(t, "C17", genCase, checkDiff) }
+func TestC17Replay(t *testing.T) { core.Replay(t, "C17", checkDiff) }
+
+// checkDiff: Float64 is also compared with float(Decimal) of Python (libmpdec to a string,
+// then the C library's correctly rounded strtod): an independent nearest-float64 conversion.
+func checkDiff(c Case, st *core.Stats) error {
+	if err := check(c, st); err != nil {
+		return err
+	}
+	if c.Kind != "float64" || c.X.Form != 0 {
+		return nil
+	}
+	a, err := pyref.Ask("tofloat", core.Ctx{P: 9, Emax: 99, Emin: -99, Rounding: "half_even"}, c.X, core.Dec{Coeff: "0"}, 0)
+	if err != nil {
+		core.InfraExit(err.Error())
+	}
+	bits, perr := strconv.ParseUint(a.S, 16, 64)
+	if perr != nil {
+		core.InfraExit("pyref: bad float answer " + a.S)
+	}
+	st.Class("python-differential")
+	got, _ := c.X.Apd().Float64()
+	if math.Float64bits(got) != bits {
+		return fmt.Errorf("Float64(%v) = %v (%#x), Python's float(Decimal) gives %v (%#x)", c.X, got, math.Float64bits(got), math.Float64frombits(bits), bits)
+	}
+	return nil
+}
